@@ -5,6 +5,7 @@ import GqlVerif.Model.Serde
 import GqlVerif.Model.EnumSpec
 import GqlVerif.Model.Scope
 import GqlVerif.Model.DefaultLit
+import GqlVerif.Model.StrLit
 open GqlVerif
 
 def errSexp : Err → Sexp
@@ -112,6 +113,18 @@ def handle (req : Sexp) : Sexp :=
       | .ok bodies => .list (.atom "defaults" :: Codegen.defaultsSexp bodies.flatten)
       | .error e => errSexp e
     | _, _, _, _ => bad "defaults"
+  | .list [.atom "strlit", .str tok, .str src] =>
+    -- C05: the string-literal token actually emitted for QUERY against the source text (Model/StrLit.lean):
+    -- `(ok)` iff rustc's value of the token is `src` and the token is a raw string or spells `src` (`IsEscapeOf`)
+    match StrLit.check tok.toList src.toList with
+    | .ok => .list [.atom "ok"]
+    | .value v => .list [.atom "mismatch", .list [.atom "value", .str (String.ofList v)]]
+    | .rejected why => .list [.atom "mismatch", .list [.atom "rejected", .str why]]
+    | .spelling => .list [.atom "mismatch", .list [.atom "spelling", .str "right value, but not a character-by-character spelling (line continuation or raw CRLF in the literal)"]]
+  | .list [.atom "strlit-print", .str src, .str us] =>
+    -- the token text the model of proc_macro2's fallback printer (`StrLit.stringToken`) emits for `src` when
+    -- `char::escape_debug` writes exactly the characters of `us` as `\u{…}` (the Unicode tables, supplied by the caller)
+    .list [.atom "token", .str (String.ofList (StrLit.stringToken (fun c => us.toList.contains c) src.toList))]
   | _ => bad "unknown request"
 
 /-- loaded module environments for the wire-level requests -/
